@@ -1,6 +1,7 @@
 """API histories for generated models: the fixed creation prefix, TLC-enumerated bodies (ApiGen),
 seeded random histories, and families (same facts, different order / interleaved closes /
 close_until stops) whose final models must coincide."""
+import json
 import itertools
 import os
 import random
@@ -182,6 +183,8 @@ def exhaustive_bodies(theory, sig, api, pre_n, max_ops, max_asserts, max_stop, m
             steps.append({"op": "close"})
         if valid_model_history(sig, steps):
             out.append(steps)
+    # TLC's workers print in scheduling order: sort, so that seeded sampling is reproducible
+    out.sort(key=lambda st: json.dumps(st, sort_keys=True))
     return out, r
 
 
